@@ -28,21 +28,21 @@ import MdVerif.Lemmas.F.PlaceholdersXTFence
 namespace MdVerif.NoCtlXF
 open Py
 open MdVerif.NoCtl (STX ETX NoCtl DomB Adj3)
-open MdVerif.NoCtlF (HtmlBound OwnBlock)
-open MdVerif.NoCtlX (Qw pDom)
+open MdVerif.NoCtlF (HtmlBound OwnBlock DomA DomAmp)
+open MdVerif.NoCtlX (Qw)
 
 /-- **C10, block stage with fenced_code.**  `text`: the text handed to the block parser; every STX/ETX of it belongs to a
-    live raw-HTML placeholder that is a block of its own (`OwnBlock HtmlBound.h text`), its characters are in the domain of
-    `C10_partial_links` (no `<`, no `&`), it has none of the three adjacencies (backslash–backtick, `![`, `](`) and, with
+    live raw-HTML placeholder that is a block of its own (`OwnBlock HtmlBound.h text`), its characters are in the domain
+    (`DomA`: no `<`, and — unless the parameter `HtmlBound.amp` admits ampersands — no `&`), it has none of the three adjacencies (backslash–backtick, `![`, `](`) and, with
     wikilinks, no `[` before a blank.  Then every element of the block tree is an `XT.BlkOut` element — literal tag;
     attribute names and values without STX/ETX; an atomic text only on `code` elements, without STX/ETX; tail and
     non-atomic text `WF false 0` (domain characters and whole live placeholders), `BtSafe`, `Adj3` — and the log satisfies
     b1's invariant for the placeholder-free class `XT.Bw wl`: no STX/ETX in any reference id, url or title, footnote id or
     body, abbreviation or title. -/
 theorem C10X_block_stage_fenced [HtmlBound] (wl : Bool) (tables : Bool) (xc : BlockExt.XCfg) {tab : Nat} (htab : 0 < tab)
-    {text : Str} (ho : OwnBlock HtmlBound.h text) (hd : DomB text) (ha : Adj3 text) (hq : Qw wl text)
+    {text : Str} (ho : OwnBlock HtmlBound.h text) (hd : DomA text) (ha : Adj3 text) (hq : Qw wl text)
     {root : Node} {log : Block.Refs} (hr : BlockExt.parseDocumentXT tables xc tab text = some (root, log)) :
-    root.Forall (XT.BlkOut wl) ∧ NoCtl.BlkX.LogC pDom (XT.Bw wl) log :=
+    root.Forall (XT.BlkOut wl) ∧ NoCtl.BlkX.LogC pDomA (XT.Bw wl) log :=
   XT.block_stage_own wl tables xc htab ho hd ha hq hr
 
 /-- a text with a heading, a list, a footnote reference and definition, an abbreviation and one placeholder block -/
@@ -52,7 +52,7 @@ def exOwn : Str :=
 /-- the hypotheses of `C10X_block_stage_fenced` hold of `exOwn` (stash of length 1) -/
 example : OwnBlock 1 exOwn ∧ DomB exOwn ∧ Adj3 exOwn ∧ Qw true exOwn := by
   refine ⟨?_, by decide, by decide, by decide⟩
-  letI : HtmlBound := ⟨1, true⟩
+  letI : HtmlBound := ⟨1, true, false⟩
   exact XT.ownBlock_one (n := 0) (by decide) (by decide) (by decide) (.inr (.inr ⟨"# h\n\n* a [^1] k".toList, rfl⟩))
     (.inr (.inr ⟨"[^1]: note\n\n*[k]: title".toList, rfl⟩))
 
@@ -69,27 +69,28 @@ example : (BlockExt.parseDocumentXT true ⟨true, true, true, true, true⟩ 4 ex
 /-- **C10, the fenced_code preprocessor.**  On a text without STX/ETX (what `NormalizeWhitespace` hands on), made of
     characters of the domain, `FencedBlockPreprocessor.run` returns a text in which every STX/ETX belongs to a
     placeholder `STX wzxhzdk:n ETX` with `n` below the length of the returned stash that is a block of its own
-    (`OwnBlock`); the text is still in the domain (`DomB`: neither `<` nor `&` — so the raw-HTML preprocessor leaves it
-    alone), keeps `Adj3` and `Qw wl`; and no stash entry holds STX/ETX (the code of a later block cannot contain an
+    (`OwnBlock`); the text is still in the domain (`DomA`; without ampersands: neither `<` nor `&` — so the raw-HTML
+    preprocessor leaves it alone), keeps `Adj3` and `Qw wl`; and no stash entry holds STX/ETX (the code of a later block cannot contain an
     earlier placeholder: matches are searched behind the last placeholder only). -/
-theorem C10X_fenced_preprocessor (wl : Bool) {t t' : Str} {stash : List Str}
-    (h : Fenced.fencedRunA t = .ok t' stash) (hn : NoCtl t) (hd : DomB t) (ha : Adj3 t) (hq : Qw wl t) :
-    (OwnBlock stash.length t' ∧ DomB t' ∧ Adj3 t' ∧ Qw wl t') ∧ ∀ e ∈ stash, NoCtl e :=
+theorem C10X_fenced_preprocessor [HtmlBound] (wl : Bool) {t t' : Str} {stash : List Str}
+    (h : Fenced.fencedRunA t = .ok t' stash) (hn : NoCtl t) (hd : DomA t) (ha : Adj3 t) (hq : Qw wl t) :
+    (OwnBlock stash.length t' ∧ DomA t' ∧ Adj3 t' ∧ Qw wl t') ∧ ∀ e ∈ stash, NoCtl e :=
   XT.fencedRunA_own wl h hn hd ha hq
 
 /-- **C10, preprocessor and block stage with fenced_code.**  From the normalised source to the block tree: with the
-    grammar parameter `HtmlBound.h` = the length of the raw-HTML stash (any `fn`), every element of the tree is an
-    `XT.BlkOut` element, the log is free of STX/ETX (`LogC pDom (XT.Bw wl)`), the stash entries are free of STX/ETX. -/
-theorem C10X_fenced_front (wl fn : Bool) (tables : Bool) (xc : BlockExt.XCfg) {tab : Nat} (htab : 0 < tab)
+    grammar parameter `HtmlBound.h` = the length of the raw-HTML stash (any `fn`, any `amp`: `DomAmp amp t` = no `<`, and no
+    `&` unless `amp`), every element of the tree is an `XT.BlkOut` element, the log is free of STX/ETX
+    (`LogC pDomA (XT.Bw wl)`), the stash entries are free of STX/ETX. -/
+theorem C10X_fenced_front (wl fn amp : Bool) (tables : Bool) (xc : BlockExt.XCfg) {tab : Nat} (htab : 0 < tab)
     {t t' : Str} {stash : List Str} (h : Fenced.fencedRunA t = .ok t' stash)
-    (hn : NoCtl t) (hd : DomB t) (ha : Adj3 t) (hq : Qw wl t)
+    (hn : NoCtl t) (hd : DomAmp amp t) (ha : Adj3 t) (hq : Qw wl t)
     {root : Node} {log : Block.Refs} (hr : BlockExt.parseDocumentXT tables xc tab t' = some (root, log)) :
-    (letI : HtmlBound := ⟨stash.length, fn⟩; root.Forall (XT.BlkOut wl)) ∧
-      NoCtl.BlkX.LogC pDom (XT.Bw wl) log ∧ ∀ e ∈ stash, NoCtl e := by
-  obtain ⟨⟨h1, h2, h3, h4⟩, h5⟩ := XT.fencedRunA_own wl h hn hd ha hq
-  letI : HtmlBound := ⟨stash.length, fn⟩
+    (letI : HtmlBound := ⟨stash.length, fn, amp⟩; root.Forall (XT.BlkOut wl) ∧ NoCtl.BlkX.LogC pDomA (XT.Bw wl) log) ∧
+      ∀ e ∈ stash, NoCtl e := by
+  letI : HtmlBound := ⟨stash.length, fn, amp⟩
+  obtain ⟨⟨h1, h2, h3, h4⟩, h5⟩ := XT.fencedRunA_own wl h hn (NoCtlF.domA_of_domAmp hd) ha hq
   obtain ⟨r1, r2⟩ := XT.block_stage_own wl tables xc htab (text := t') h1 h2 h3 h4 hr
-  exact ⟨r1, r2, h5⟩
+  exact ⟨⟨r1, r2⟩, h5⟩
 
 /-- a normalised source with two fenced blocks (one with a language), a list, a footnote and an abbreviation -/
 def exSrc : Str :=
@@ -109,11 +110,11 @@ def exLine : Str := "[a]:\n".toList ++ Fenced.placeholder 0 ++ "\n\n[q][a]".toLi
 /-- **"alone on its line" is not enough**: `exLine` is made of domain characters and one whole live placeholder on a line of
     its own, yet the block parser stores the placeholder as the url of the reference `a` — STX/ETX in `md.references` -/
 theorem C10X_block_own_line_not_enough :
-    DomB exLine ∧ Adj3 exLine ∧ (letI : HtmlBound := ⟨1, true⟩; NoCtlF.WF false 0 exLine) ∧
+    DomB exLine ∧ Adj3 exLine ∧ (letI : HtmlBound := ⟨1, true, false⟩; NoCtlF.WF false 0 exLine) ∧
       (BlockExt.parseDocumentXT false {} 4 exLine).map (fun r => r.2) =
         some [("a".toList, (Fenced.placeholder 0, none))] := by
   refine ⟨by decide, by decide, ?_, by decide +kernel⟩
-  letI : HtmlBound := ⟨1, true⟩
+  letI : HtmlBound := ⟨1, true, false⟩
   exact (NoCtlF.WF.append (NoCtlF.WF.of_noCtl (by decide)) (XT.wf_placeholder (n := 0) (by decide))).append
     (NoCtlF.WF.of_noCtl (by decide))
 
